@@ -19,7 +19,19 @@ import (
 	"github.com/rqlite/rqlite/v10/command/proto"
 )
 
+func c25Transient(msg string) bool {
+	m := strings.ToLower(msg)
+	for _, p := range []string{"not leader", "leadership lost", "leadership transfer", "timeout waiting for leader",
+		"timed out enqueuing", "enqueue timeout", "no leader", "leader not known"} {
+		if strings.Contains(m, p) {
+			return true
+		}
+	}
+	return false
+}
+
 func TestVerifC25Store(t *testing.T) {
+	abandoned, judged := 0, 0
 	rep := vfNewReport("C25", "real single-node Store with CDC enabled (table filter ^t$): generated requests (single statement, multi-statement with and without transaction, statements on a filtered table, multi-row statements) interleaved with snapshot installs on the live node (FSM.Snapshot/Persist/Restore), database loads and user snapshots; the event groups arriving on the CDC channel for every entry are compared with the model's streamer. A sequence is non-trivial when a write follows a snapshot install and a load; distinct by op text")
 	defer rep.Write()
 	r := vfNewRng(2500)
@@ -33,7 +45,7 @@ func TestVerifC25Store(t *testing.T) {
 		t.Fatalf("bootstrap: %v", err)
 	}
 	defer s.Close(true)
-	if _, err := s.WaitForLeader(10 * time.Second); err != nil {
+	if _, err := s.WaitForLeader(60 * time.Second); err != nil {
 		t.Fatalf("leader: %v", err)
 	}
 	out := make(chan *proto.CDCIndexedEventGroup, 4096)
@@ -52,8 +64,16 @@ func TestVerifC25Store(t *testing.T) {
 		}
 		return idx, nil
 	}
-	if _, err := exec(false, "CREATE TABLE t (id INTEGER PRIMARY KEY)", "CREATE TABLE u (id INTEGER PRIMARY KEY)"); err != nil {
-		t.Fatalf("schema: %v", err)
+	for try := 0; ; try++ {
+		_, err := exec(true, "CREATE TABLE IF NOT EXISTS t (id INTEGER PRIMARY KEY)", "CREATE TABLE IF NOT EXISTS u (id INTEGER PRIMARY KEY)")
+		if err == nil {
+			break
+		}
+		if !c25Transient(err.Error()) || try > 60 {
+			t.Fatalf("schema: %v", err)
+		}
+		time.Sleep(time.Second)
+		s.WaitForLeader(60 * time.Second)
 	}
 	drain := func() []*proto.CDCIndexedEventGroup {
 		var gs []*proto.CDCIndexedEventGroup
@@ -121,6 +141,14 @@ func TestVerifC25Store(t *testing.T) {
 				continue
 			}
 			if err := s.Load(context.Background(), &proto.LoadRequest{Data: buf.Bytes()}); err != nil {
+				if c25Transient(err.Error()) {
+					// a busy machine (leadership lost and regained, enqueue timeout): not a case
+					abandoned++
+					rep.Count("abandoned:transient-error-on-load")
+					s.WaitForLeader(60 * time.Second)
+					drain()
+					continue
+				}
 				t.Fatalf("load: %v", err)
 			}
 			last, sawLoad = "load", true
@@ -157,8 +185,18 @@ func TestVerifC25Store(t *testing.T) {
 			}
 			idx, err := exec(tx, stmts...)
 			if err != nil {
+				if c25Transient(err.Error()) {
+					// the request may or may not have been applied: its groups cannot be judged
+					abandoned++
+					rep.Count("abandoned:transient-error-on-write")
+					s.WaitForLeader(60 * time.Second)
+					time.Sleep(200 * time.Millisecond)
+					drain()
+					continue
+				}
 				t.Fatalf("write: %v", err)
 			}
+			judged++
 			txf := 0
 			if tx {
 				txf = 1
@@ -210,4 +248,8 @@ func TestVerifC25Store(t *testing.T) {
 	}
 	rep.Case(strings.Join(ops, ";"), sawRestore && sawLoad)
 	rep.vfCompare("cdcpipe", ops, impl, nil)
+	rep.CountN("abandoned-cases", abandoned)
+	if abandoned > judged {
+		rep.Fail("harness:could-not-run", fmt.Sprintf("%d of %d requests were abandoned because of transient errors (busy machine?)", abandoned, abandoned+judged), nil)
+	}
 }
